@@ -57,6 +57,8 @@
 #include <GeographicLib/CassiniSoldner.hpp>
 #include <GeographicLib/Gnomonic.hpp>
 #include <GeographicLib/PolygonArea.hpp>
+#include <GeographicLib/DST.hpp>
+#include "kissfft.hh"
 using namespace GeographicLib; using namespace gv;
 
 typedef std::vector<uint64_t> Res;
@@ -593,9 +595,29 @@ static Reg r_mt("mt", [](const Args& a) {
   run_mt(a[0], std::atoi(a[1].c_str()), std::atoi(a[2].c_str()), std::strtoull(a[3].c_str(), nullptr, 10));
 });
 
+// the stage radices kissfft chooses for a transform length (compared in Lean with the model `kissRadices`, on which the
+// obligation "the generic butterfly is never reached from GeodesicExact" rests)
+static Reg r_fftradix("fftradix", [](const Args& a) {
+  size_t n = size_t(std::strtoull(a[0].c_str(), nullptr, 10));
+  kissfft<double> k(n, false);
+  std::string r; for (size_t p : k._stageRadix) r += (r.empty() ? "" : " ") + std::to_string(p);
+  emit(r);
+});
+// the FFT length DST(N) really uses
+static Reg r_dstlen("dstlen", [](const Args& a) {
+  int N = std::atoi(a[0].c_str()); DST d(N);
+  emit(std::to_string(d._fft->_nfft));
+});
+
 void gv::generate(const std::string& tier, uint64_t seed) {
   Rng g(seed * 0x9e3779b97f4a7c15ULL + 14);
   bool th = tier == "thorough";
+  auto aux = [&]() {
+    stratum("fft-radices");
+    for (int k = 1; k <= 14; ++k) { run("fftradix", {std::to_string(2 << k)}); run("fftradix", {std::to_string(3 << k)}); }
+    for (int k = 0; k < (th ? 400 : 60); ++k) run("fftradix", {std::to_string(g.irange(1, k % 3 ? 300 : 20000))});
+    for (int N : {2, 3, 4, 6, 96, 1536, 4096}) run("dstlen", {std::to_string(N)});
+  };
   int rounds = th ? 12 : 3;
   for (int round = 0; round < rounds; ++round)
     for (auto& kv : suites()) {
@@ -606,6 +628,7 @@ void gv::generate(const std::string& tier, uint64_t seed) {
       uint64_t s = g.next() % 1000000007ULL;
       if (round == 0 && kv.first != "Singletons" && (seed % 3 == 0)) sample("mt " + kv.first + " " + std::to_string(nth) + " " + std::to_string(iters) + " " + std::to_string(s));
       run("mt", {kv.first, std::to_string(nth), std::to_string(iters), std::to_string(s)});
+      if (round == 0 && kv.first == "Singletons") aux();
     }
 }
 
